@@ -9,7 +9,10 @@ package checks
 // status, queue content at the end.
 
 import (
+	"bytes"
+	"encoding/json"
 	"fmt"
+	"net/http/httptest"
 	"strings"
 	"testing"
 	"testing/synctest"
@@ -17,6 +20,7 @@ import (
 
 	"github.com/flant/shell-operator/pkg/hook/task_metadata"
 
+	"verif/harness/vhk"
 	"verif/harness/vlib"
 )
 
@@ -27,6 +31,7 @@ type c04case struct {
 	HeadAllow bool
 	Behind    string // none same-allow diff-allow other-hook
 	Arrivals  int    // same-binding triggers injected during the first back-off
+	Admission bool   // sync only: the hook also has a validating binding; a request for it arrives during the back-off
 }
 
 func (c c04case) String() string {
@@ -81,6 +86,11 @@ func TestC04(t *testing.T) {
 		if cs.K > 0 && (cs.Kind == "event" || cs.Kind == "schedule" || cs.Kind == "group") {
 			cs.Arrivals = rng.IntN(3)
 		}
+		if cs.Kind == "sync" && !cs.HeadAllow && (c.Index/2)%2 == 1 {
+			// an admission request for the same hook arrives while its failed Synchronization waits for the retry:
+			// the request is served at once, on its own; the failed task stays where it is
+			cs.K, cs.Admission = 1, true
+		}
 		c04run(c, cs, &res)
 		res.Key = cs.String()
 		return res
@@ -102,6 +112,9 @@ func c04run(c *vlib.Case, cs c04case, res *vlib.Result) {
 		cfgA["onStartup"] = 1.0
 	case "sync":
 		cfgA["kubernetes"] = []any{m{"name": "kA", "apiVersion": "v1", "kind": "ConfigMap", "allowFailure": cs.HeadAllow}}
+		if cs.Admission {
+			cfgA["kubernetesValidating"] = []any{m{"name": "adm.example.com", "rules": []any{m{"apiGroups": []any{""}, "apiVersions": []any{"v1"}, "operations": []any{"CREATE"}, "resources": []any{"pods"}, "scope": "Namespaced"}}}}
+		}
 	case "event":
 		cfgA["kubernetes"] = []any{m{"name": "kA", "apiVersion": "v1", "kind": "ConfigMap", "allowFailure": cs.HeadAllow, "queue": Q}}
 	case "schedule":
@@ -159,6 +172,29 @@ func c04run(c *vlib.Case, cs c04case, res *vlib.Result) {
 		_ = createCM(sys, "default", "preexisting", 0)
 		if cs.Kind == "onStartup" || cs.Kind == "sync" {
 			sys.Start()
+			if cs.Admission {
+				// wait for the first (failing) Synchronization attempt, then send the request during its back-off
+				for i := 0; i < 40 && len(hs.Executions()) == 0; i++ {
+					sys.Advance(250 * time.Millisecond)
+				}
+				sys.Advance(time.Second)
+				if sys.Op.AdmissionWebhookManager != nil && sys.Op.AdmissionWebhookManager.Handler != nil {
+					hs.Plan("100-a", 1, vhk.Directive{Admission: `{"allowed":true}`})
+					review := m{"apiVersion": "admission.k8s.io/v1", "kind": "AdmissionReview", "request": m{
+						"uid": "c04-admission", "kind": m{"group": "", "version": "v1", "kind": "Pod"}, "resource": m{"group": "", "version": "v1", "resource": "pods"},
+						"name": "p", "namespace": "default", "operation": "CREATE", "object": m{"apiVersion": "v1", "kind": "Pod", "metadata": m{"name": "p", "namespace": "default"}},
+					}}
+					b, _ := json.Marshal(review)
+					rec := httptest.NewRecorder()
+					hreq := httptest.NewRequest("POST", "/hooks/adm-example-com", bytes.NewReader(b))
+					hreq.Header.Set("Content-Type", "application/json")
+					sys.Op.AdmissionWebhookManager.Handler.Router.ServeHTTP(rec, hreq)
+					logf("admission request for hook 100-a served during the back-off of its failed Synchronization: HTTP %d", rec.Code)
+				} else {
+					res.Inconclusive = "admission handler not initialised"
+					return
+				}
+			}
 			if !sys.Settle(300) {
 				res.Inconclusive = "startup did not settle"
 			}
@@ -236,6 +272,27 @@ func c04run(c *vlib.Case, cs c04case, res *vlib.Result) {
 		return
 	}
 	execs := hs.Executions()
+	if cs.Admission {
+		// the admission run is an execution of hook 100-a outside the queues: judged by C14, set aside here
+		var kept []*vlib.Execution
+		seen := false
+		for _, ex := range execs {
+			if len(ex.Contexts) > 0 && fmt.Sprint(ex.Contexts[0]["type"]) == "Validating" && !seen {
+				seen = true
+				if len(ex.Contexts) != 1 {
+					res.Violate("admission-run-absorbed-queued-tasks/sync", "the admission run of hook 100-a received %d binding contexts [%s]: it took over tasks waiting in the main queue", len(ex.Contexts), vlib.CtxSummary(ex.Contexts))
+				}
+				continue
+			}
+			kept = append(kept, ex)
+		}
+		if !seen {
+			res.Inconclusive = "the admission request did not lead to a hook run"
+			return
+		}
+		res.Count("admission_requests_during_a_backoff", 1)
+		execs = kept
+	}
 	var aEx, bEx []*vlib.Execution
 	for _, ex := range execs {
 		switch ex.Hook {
